@@ -7,6 +7,7 @@ from harness import ssdp_hist as H
 
 class Plugin:
     ID = "C03"
+    HEADER = H.Tokens.HEADER
     RUN_MODULE = "C03.Run"
     GEN = ["Ssdp"]
     DEPENDS = ["C16"]
